@@ -89,6 +89,23 @@ structure TokSpans (TI : Nat → Nat → Local → Env → Prop) : Prop where
     (fun l e => TI len f l e ∧ l.store = st) (fun _ l e => TI len f l e ∧ l.store = st)
   init : ∀ s l e, InitState s l e → TI s.length 0 l e
 
+/-- the part of `TokSpans` the semantic actions (and word expansion) use: everything but `next`
+    and `init`.  (Separated so that the action lemmas can be instantiated with a tokenizer
+    invariant that also pins a ghost token log, which `next` extends: `Props/C05`.) -/
+structure TokAct (TI : Nat → Nat → Local → Env → Prop) : Prop where
+  gather : ∀ len f st, SatS gatherheredocuments (fun l e => TI len f l e ∧ l.store = st)
+    (fun _ l e => TI len f l e ∧ StoreStep len f true st l.store)
+  queue : ∀ len f l e (cell : RedirCell) (kill : Bool), TI len f l e → cell.pos.2 < f →
+    cell.heredoc = none →
+    TI len f { l with store := l.store ++ [cell],
+                      redirstack := l.redirstack ++ [(l.store.length, kill)] } e
+  ps : ∀ len f l e (ps : PState), TI len f l e → TI len f { l with ps := ps } e
+  nested : ∀ d len f st s b, SatS (npOf (parserRun d) s b)
+    (fun l e => TI len f l e ∧ l.store = st) (fun _ l e => TI len f l e ∧ l.store = st)
+
+theorem TokSpans.act {TI : Nat → Nat → Local → Env → Prop} (h : TokSpans TI) : TokAct TI :=
+  ⟨h.gather, h.queue, h.ps, h.nested⟩
+
 /-- the state predicate the semantic actions maintain: tokenizer invariant at frontier `F`, and a
     known store -/
 def StP (TI : Nat → Nat → Local → Env → Prop) (len F : Nat) (st : List RedirCell) :
